@@ -129,6 +129,13 @@ func pushdownAllowed(opts *Opts, query *sql.Query) (bool, error) {
 			if current.GroupByAll && parentGroupByAll {
 				log.Debug("Pushdown allowed because we're grouping by all")
 			} else {
+				if !groupsConfinedToPartitions(t) {
+					// Naming the partition keys in the query's GROUP BY does not help
+					// if the table itself does not keep them: its rows for one key are
+					// still spread over partitions.
+					log.Debug("Pushdown not allowed because table groups can span partitions")
+					return false, nil
+				}
 				partitionBy := t.GetPartitionBy()
 				if len(partitionBy) == 0 {
 					// Table not partitioned, can't push down
